@@ -110,14 +110,23 @@ theorem bw_last_key_sim (x : Gen.BlockWriter) (bw : BW) (hm : mBW x bw) :
     BlockWriter.last_key_fn x = .ok bw.lastKey := by
   rw [← hm]; rfl
 
-/-- `compress_and_write_block` against the model: the framed block is appended, the writer comes back reset. -/
-theorem bw_emit_sim (cd : Codec) (hcd : ∀ b, (cd.compress b).length < 2 ^ 64) (out : Bytes)
+/-- `compress_and_write_block` against the model: the framed block is appended, the writer comes back reset.
+    The only place the bound on the compressor's output is used, and only on the finished block (shorter than
+    2^63 bytes by `Small`): hence `hcd` is restricted to such inputs — the unrestricted form
+    `∀ b, (cd.compress b).length < 2^64` contradicts `cd.Lawful` (an injective `compress` cannot map all byte
+    strings into those shorter than 2^64). -/
+theorem bw_emit_sim (cd : Codec) (hcd : ∀ b : Bytes, b.length < 2 ^ 63 → (cd.compress b).length < 2 ^ 64) (out : Bytes)
     (x : Gen.BlockWriter) (bw : BW) (ct : CompressionType) (lvl : Nat) (hm : mBW x bw)
     (hs : Small (2 ^ 62) (2 ^ 31) x) :
     ∃ x', Gen.compress_and_write_block (codecFn cd) out x ct lvl = .ok (out ++ W.blockBytes cd bw.finish, x')
       ∧ mBW x' bw.reset ∧ Small (2 ^ 61) (2 ^ 30) x' := by
   have h2 := hs.offs
-  obtain ⟨x', h1, h3⟩ := src_compress_and_write_block cd out x bw.items ct lvl (by omega) (hcd _)
+  have hfin : (BW.finish (toBW x bw.items)).length < 2 ^ 63 := by
+    have hb := hs.buf
+    rw [BW.finish_length]
+    simp only [BW.sizeEstimate, toBW]
+    omega
+  obtain ⟨x', h1, h3⟩ := src_compress_and_write_block cd out x bw.items ct lvl (by omega) (hcd _ hfin)
   rw [hm] at h1 h3
   refine ⟨x', h1, mBW_of_toBW h3, ?_⟩
   have e1 : x'.buffer = bw.reset.buffer := by rw [← h3]; rfl
